@@ -75,3 +75,13 @@ chk("C17", "stateful model-based testing: generated histories with freeze/unfree
     "answers and contents identical; other calls must succeed, leave the graph unchanged and propagate values (pull-model oracle). After "
     "unfreeze the history continues against the model that skipped exactly the rejected calls, and the final queries equal a fresh manager's.",
     TRUST, "DESIGN.md 4/C17")
+
+chk("C18", "fault injection at every crash point of a generated update, differential against a fault-free twin execution",
+    "Generated task graphs over fault-injecting containers; the fault-free event sequence W (container writes, user-function calls, "
+    "function-task actions) of one observed assignment is recorded on a twin; for every crash point k (all k when |W| <= 8, else 0, "
+    "last, middle and drawn ones) a fresh world fails at event k: the injected exception object must reach the caller, the observed "
+    "events must be exactly W[0..k], the contents must equal the pre-state plus the writes of W[:k], dump()/index supports/verify()/"
+    "queries must equal the twin's, and a fault-free repeat must reproduce the twin's final contents; one more world takes 2-3 faulty "
+    "attempts in a row before the repeat.",
+    TRUST + " Linear knobs (incremental, not idempotent by design) and in-place observed assignments are outside the check.",
+    "DESIGN.md 4/C18")
